@@ -3,6 +3,7 @@ package main
 import (
 	"fmt"
 	"go/token"
+	"go/types"
 	"net/http"
 
 	"golang.org/x/tools/go/ssa"
@@ -49,7 +50,8 @@ func factLessConst(m VPred) EdgePred {
 func runC07(c *Ctx) {
 	p := c.P
 	f := p.Fn("rt/middleware.NegotiateContentType")
-	offers, def := f.Params[1], f.Params[2]
+	negotiateSelection(c, "R07.1", "R07.2")
+	offers := f.Params[1]
 	isOfferElem := func(o Origin) bool {
 		ad, ok := derefLoad(o.V)
 		if !ok {
@@ -57,49 +59,6 @@ func runC07(c *Ctx) {
 		}
 		ia, ok := ad.(*ssa.IndexAddr)
 		return ok && ia.X == ssa.Value(offers)
-	}
-	for _, r := range returnsOf(f) {
-		ok, bad := allOrigins(r.Results[0], oIsValue(def), isOfferElem)
-		c.obI("R07.1", r, "result-is-an-offer", ok, "NegotiateContentType returns its defaultOffer or an element of offers — never a value taken from the Accept header", "origin "+describeOrigin(bad))
-	}
-	specs := callsIn(f, "rt/middleware/header.ParseAccept")
-	c.obF("R07.1", f, "parses-accept", len(specs) == 1, "the Accept header is parsed once", "")
-	if len(specs) != 1 {
-		return
-	}
-	sp := specs[0].(*ssa.Call)
-	noSpecs := factLenPositive(vIs(sp), false)
-	inner := sliceLoops(f, vIs(sp))
-	outer := sliceLoops(f, vIs(offers))
-	c.obF("R07.2", f, "loops", len(inner) == 1 && len(outer) == 1, "NegotiateContentType iterates offers x ranges", fmt.Sprintf("%d/%d loops", len(outer), len(inner)))
-	if len(inner) != 1 || len(outer) != 1 {
-		return
-	}
-	qNonZero := factEqInt(vFieldLoad(acceptSpecT, "Q", nil), 0, false)
-	nSel := 0
-	for _, in := range instrs(f) {
-		phi, ok := in.(*ssa.Phi)
-		if !ok {
-			continue
-		}
-		for i, e := range phi.Edges {
-			okE, _ := allOrigins(e, isOfferElem)
-			if _, isPhi := e.(*ssa.Phi); isPhi || !okE {
-				continue
-			}
-			nSel++
-			g := edgeGuarded(phi.Block().Preds[i], phi.Block(), inner[0].Elem, qNonZero)
-			c.obI("R07.2", lastInstr(phi.Block().Preds[i]), "selection-needs-nonzero-q", g, "an offer becomes the best offer only on a path on which the matching range's q-value is not 0", "an offer can be selected by a range with q=0")
-		}
-	}
-	c.obF("R07.2", f, "selections", nSel >= 3, "the three range kinds (*/*, type/*, exact) can select an offer", fmt.Sprintf("%d selection sites", nSel))
-	for _, r := range returnsOf(f) {
-		if _, isPhi := r.Results[0].(*ssa.Phi); isPhi {
-			continue
-		}
-		if ok, _ := allOrigins(r.Results[0], isOfferElem); ok {
-			c.obI("R07.2", r, "shortcut-only-without-ranges", guardedBy(r, nil, noSpecs), "an offer is returned without comparing ranges only when the Accept header yielded no range at all", "an offer is returned unconditionally")
-		}
 	}
 	// R07.6 matching forms
 	isNormOffer := vOrigins(oCallWhere(-1, "rt/middleware.normalizeOffer", func(n *ssa.Call) bool {
@@ -183,6 +142,43 @@ func runC07(c *Ctx) {
 	bf = append(bf, f, fe, p.Fn("rt/middleware.normalizeOffer"), p.Fn("rt/middleware.normalizeOffers"))
 	checkBounds(c, "R07.3", bf, c07Table)
 	c.min("R07.3", 30)
+
+	// R07.4 the parameter-skipping loop of ParseAccept never runs past the separator of the next range
+	pa := p.Fn("rt/middleware/header.ParseAccept")
+	nSkip := 0
+	for _, ci := range callsIn(pa, "rt/middleware/header.skipSpace") {
+		sl, ok := ci.Common().Args[0].(*ssa.Slice)
+		if !ok || sl.High != nil {
+			continue
+		}
+		if k, okk := constInt(sl.Low); !okk || k != 1 {
+			continue
+		}
+		// the advance of the inner skip loop: the string it cuts is the loop variable it feeds (s = skipSpace(s[1:]))
+		lp, isPhi := sl.X.(*ssa.Phi)
+		feeds := false
+		if isPhi {
+			for _, e := range lp.Edges {
+				if e == ci.Value() {
+					feeds = true
+				}
+			}
+		}
+		if !feeds {
+			continue
+		}
+		nSkip++
+		notComma := factBool(func(v ssa.Value) bool {
+			h := asCall(v)
+			if h == nil || calleeName(&h.Call) != "strings.HasPrefix" || h.Call.Args[0] != sl.X {
+				return false
+			}
+			k, _ := constString(h.Call.Args[1])
+			return k == ","
+		}, false)
+		c.obI("R07.4", ci, "parameter-skip-stops-at-comma", guardedBy(ci, nil, notComma) && guardedBy(ci, ci, notComma), "while skipping a range's parameters in search of q=, ParseAccept advances only when the rest does not start with the ',' that separates the next range (so the following ranges of the header line are parsed from the right place)", "the skip loop can run over a ',' and swallow the following ranges")
+	}
+	c.obF("R07.4", pa, "parameter-skip-loop", nSkip >= 1, "ParseAccept skips media-type parameters before q=", fmt.Sprintf("%d skip sites", nSkip))
 
 	// R07.4 accumulators
 	eq := p.Fn("rt/middleware/header.expectQuality")
@@ -344,4 +340,128 @@ func loopExitsOnlyOnNonDigit(c *Ctx, f *ssa.Function) {
 		return
 	}
 	c.obF("R07.4", f, "digit-loop", false, "expectQuality scans the fractional digits in a loop", "loop not found")
+}
+
+// factQNotBelow: the edge establishes that the range's q is not below the other operand (the best q so far).
+func factQNotBelow(isQ VPred) EdgePred {
+	return func(cond ssa.Value, branch bool) bool {
+		c, b := stripNot(cond, branch)
+		bo, ok := c.(*ssa.BinOp)
+		if !ok {
+			return false
+		}
+		if _, isC := bo.X.(*ssa.Const); isC {
+			return false
+		}
+		if _, isC := bo.Y.(*ssa.Const); isC {
+			return false
+		}
+		switch {
+		case isQ(bo.X):
+			return bo.Op == token.LSS && !b || (bo.Op == token.GEQ || bo.Op == token.GTR || bo.Op == token.EQL) && b
+		case isQ(bo.Y):
+			return bo.Op == token.GTR && !b || (bo.Op == token.LEQ || bo.Op == token.LSS || bo.Op == token.EQL) && b
+		}
+		return false
+	}
+}
+
+// negotiateSelection: the selection clauses of NegotiateContentType (shared by C07 and C08, whose "negotiated media
+// type" is the result of this function).
+func negotiateSelection(c *Ctx, r1, r2 string) {
+	p := c.P
+	f := p.Fn("rt/middleware.NegotiateContentType")
+	offers, def := f.Params[1], f.Params[2]
+	isOfferElem := func(o Origin) bool {
+		ad, ok := derefLoad(o.V)
+		if !ok {
+			return false
+		}
+		ia, ok := ad.(*ssa.IndexAddr)
+		return ok && ia.X == ssa.Value(offers)
+	}
+	for _, r := range returnsOf(f) {
+		ok, bad := allOrigins(r.Results[0], oIsValue(def), isOfferElem)
+		c.obI(r1, r, "result-is-an-offer", ok, "NegotiateContentType returns its defaultOffer or an element of offers — never a value taken from the Accept header", "origin "+describeOrigin(bad))
+	}
+	specs := callsIn(f, "rt/middleware/header.ParseAccept")
+	c.obF(r1, f, "parses-accept", len(specs) == 1, "the Accept header is parsed once", "")
+	if len(specs) != 1 {
+		return
+	}
+	sp := specs[0].(*ssa.Call)
+	noSpecs := factLenPositive(vIs(sp), false)
+	inner := sliceLoops(f, vIs(sp))
+	outer := sliceLoops(f, vIs(offers))
+	c.obF(r2, f, "loops", len(inner) == 1 && len(outer) == 1, "NegotiateContentType iterates offers x ranges", fmt.Sprintf("%d/%d loops", len(outer), len(inner)))
+	if len(inner) != 1 || len(outer) != 1 {
+		return
+	}
+	qNonZero := factEqInt(vFieldLoad(acceptSpecT, "Q", nil), 0, false)
+	nSel, nRank := 0, 0
+	for _, in := range instrs(f) {
+		phi, ok := in.(*ssa.Phi)
+		if !ok {
+			continue
+		}
+		for i, e := range phi.Edges {
+			okE, _ := allOrigins(e, isOfferElem)
+			if _, isPhi := e.(*ssa.Phi); isPhi || !okE {
+				continue
+			}
+			nSel++
+			g := edgeGuarded(phi.Block().Preds[i], phi.Block(), inner[0].Elem, qNonZero)
+			c.obI(r2, lastInstr(phi.Block().Preds[i]), "selection-needs-nonzero-q", g, "an offer becomes the best offer only on a path on which the matching range's q-value is not 0", "an offer can be selected by a range with q=0")
+			gq := edgeGuarded(phi.Block().Preds[i], phi.Block(), inner[0].Elem, factQNotBelow(vFieldLoad(acceptSpecT, "Q", nil)))
+			c.obI(r2, lastInstr(phi.Block().Preds[i]), "selection-not-below-best-q", gq, "an offer becomes the best offer only on a path on which the matching range's q-value was compared with the best q so far and is not below it (a range of lower quality never displaces a match of higher quality)", "an offer can be selected by a range whose q is below the best q so far")
+			// specificity ranks: the rank recorded with a selection is the rank the tie-break compares against
+			pb := phi.Block().Preds[i]
+			for _, sib := range phi.Block().Instrs {
+				w, ok := sib.(*ssa.Phi)
+				if !ok || w == phi {
+					continue
+				}
+				k, isK := constInt(w.Edges[i])
+				if bt, okb := w.Type().Underlying().(*types.Basic); !isK || !okb || bt.Info()&types.IsInteger == 0 {
+					continue
+				}
+				for _, q := range pb.Preds {
+					iff, ok := lastInstr(q).(*ssa.If)
+					if !ok {
+						continue
+					}
+					cnd, br := stripNot(iff.Cond, q.Succs[0] == pb)
+					bo, ok := cnd.(*ssa.BinOp)
+					if !ok {
+						continue
+					}
+					y, isY := constInt(bo.Y)
+					if bt, okb := bo.X.Type().Underlying().(*types.Basic); !isY || !okb || bt.Info()&types.IsInteger == 0 {
+						continue
+					}
+					var implied int64
+					switch {
+					case bo.Op == token.GTR && br, bo.Op == token.LEQ && !br:
+						implied = y
+					case bo.Op == token.GEQ && br, bo.Op == token.LSS && !br:
+						implied = y - 1
+					default:
+						continue
+					}
+					nRank++
+					c.obI(r2, iff, "rank-compared-is-rank-recorded", implied == k, "at equal quality a range displaces the best match only when the best match's specificity rank is strictly worse than the rank this range records for itself (ties go to the more specific range, then to offer order)", fmt.Sprintf("the selection records rank %d but displaces matches of rank > %d", k, implied))
+				}
+			}
+		}
+	}
+	c.obF(r2, f, "rank-comparisons", nRank >= 3, "each of the three range kinds compares the best specificity rank with its own", fmt.Sprintf("%d rank comparisons", nRank))
+	c.obF(r2, f, "selections", nSel >= 3, "the three range kinds (*/*, type/*, exact) can select an offer", fmt.Sprintf("%d selection sites", nSel))
+	for _, r := range returnsOf(f) {
+		if _, isPhi := r.Results[0].(*ssa.Phi); isPhi {
+			continue
+		}
+		if ok, _ := allOrigins(r.Results[0], isOfferElem); ok {
+			c.obI(r2, r, "shortcut-only-without-ranges", guardedBy(r, nil, noSpecs), "an offer is returned without comparing ranges only when the Accept header yielded no range at all", "an offer is returned unconditionally")
+		}
+	}
 }
